@@ -925,6 +925,8 @@ class Interp:
                 return self.seg_append(a, b)
             if opname == 'Add' and isinstance(b, Seg) and isinstance(a, str) and a == '':
                 return b
+            if opname == 'Add' and isinstance(b, Seg) and b.kind == 'str' and isinstance(a, (str, RepStr, FnStr)):
+                return self.seg_append(as_seg('str', a), b)
             raise Unsupported('operation on accumulator')
         if isinstance(a, (RepStr, FnStr)) or isinstance(b, (RepStr, FnStr)) or (isinstance(a, str) and is_z3(b)) or (isinstance(b, str) and is_z3(a) and b and opname == 'Mult'):
             return self.str_op(opname, a, b)
